@@ -151,7 +151,20 @@ def oracle(case, ctx):
             # followed from here on
             if kind == "predict":
                 p = sut(f.predict, fh_arg())
-                discs += check_forecast(p, model, steps, desc, "predict_after_update_predict", None)
+                exp = None
+                if spec["kind"] == "naive" and (spec["strategy"] == "last" or spec.get("wl") is not None):
+                    # a window forecaster without fitted parameters: the forecast is made from
+                    # the cutoff, i.e. from the window that ends there (not from the newest
+                    # data the forecaster happens to remember)
+                    def window_at_cutoff():
+                        u = series_of(model)
+                        g = pools.build_forecaster(spec)
+                        g.fit(mk(list(u.index), u.to_numpy(), ik), None, gen.build_fh(steps, "list"))
+                        return g.predict()
+
+                    exp = sut(window_at_cutoff)
+                    ctx.label("window_forecast_after_update_predict")
+                discs += check_forecast(p, model, steps, desc, "predict_after_update_predict", exp)
                 continue
             if kind != "update_predict":
                 continue
@@ -414,7 +427,7 @@ def cases(draw):
                         "step": draw(st.integers(1, 3)), "sww": draw(st.booleans()),
                         "update_params": draw(st.sampled_from([True, False]))})
             # ... optionally followed by a predict and / or a second update_predict
-            tail = draw(st.sampled_from(["", "", "p", "u", "pu", "up"]))
+            tail = draw(st.sampled_from(["", "p", "p", "u", "pu", "up"]))
             for ch in tail:
                 if ch == "p":
                     ops.append({"op": "predict"})
